@@ -1,6 +1,6 @@
 """Configuration of ./check for C06 (see tools/props.py)."""
 ENTRY = {'coq_dir': 'C06',
- 'coq_deps': ['Mgr'],
+ 'coq_deps': ['Mgr', 'C10'],
  'model_files': ['Glue'],
  'harness': 'c05',
  'harness_extra': '--focus limits',
